@@ -24,12 +24,15 @@ CLAIMED['C07'] = dict(
     text="Operations of the extension types return the mathematically exact result or an overflow/None: Verus proves the integer kernels extracted from datetime.rs/decimal.rs (DateTime::offset, duration_since, to_date, to_time; Duration::to_*; UTCOffset::to_seconds/is_valid; checked_mul_pow) against exact integer specs for all i64 inputs; Kani proves IPAddr::is_in_range (v4, v6, mixed), is_loopback, is_multicast, is_ipv4/is_ipv6 against an interval spec of CIDR blocks for all addresses and prefix lengths with loop-free full-domain harnesses (complete, with concrete counterexamples replayed through the evaluator).",
     design_ref='§5 C07', technique='Verus contracts on extracted integer kernels + Kani full-domain loop-free harnesses on the real crate',
     note="Trusted: Verus/Z3, Kani/CBMC; std checked_* specs; IPAddr prefix-range invariant assumed in harnesses. Not covered: which strings the constructors accept (regex, chrono, std::net parsing, str::parse), the &[Value] wrappers with dyn Any downcasts, Display/canonical forms, equality by represented value.", engine='vx+kani')
+CLAIMED['C08'] = dict(
+    text="Every core PolicySet operation (new, add, add_static, add_template, link, unlink, remove_static, remove_template, policy_id_is_bound, get, get_template_arc, get_linked_policies, policies, is_empty) is extracted verbatim (hash-map Entry API included, through prophecy-style contracts) and proved by Verus to preserve a representation invariant over the three maps (no link without its template, exact reverse index, an id shared by a template and a link only for a static policy) with whole-view postconditions: exact success condition, exactly the stated change on success, nothing changed on failure; both panic! arms are proved unreachable. policies() yields exactly the links, with pairwise distinct ids (the precondition used by C01).",
+    design_ref='§5 C08', technique='Verus data-structure invariant + whole-view function contracts on extracted code',
+    note="Trusted: Verus/Z3; LinkedHashMap/LinkedHashSet/Entry model; Template::link / link_static_policy contracts (check_binding not verified); caller-established preconditions of add/link about non-static id collisions. Not covered: link == substitution at evaluation (Slot arm), merge_policyset, try_from_iter, the cedar_policy::PolicySet wrapper maps in api.rs.")
 NOT_APPLICABLE = {
     'C03': 'strict-validation soundness relates two multi-thousand-line recursive functions over all programs x environments; no function contract within reach implies it (DESIGN §6)',
     'C04': 'in progress',
     'C05': 'parser is LALRPOP-generated tables + Display through fmt::Formatter; Verus has no str/formatter reasoning (DESIGN §6)',
     'C06': 'four large structural recursions plus serde/prost-generated code; beyond reach of function contracts here (DESIGN §6)',
-    'C08': 'in progress',
     'C09': 'two parsers, name resolution and a printer; same obstacles as C05/C06 (DESIGN §6)',
     'C10': 'serde-driven, expected-type directed JSON parsing; the round trip is not expressible as a contract on functions within reach (DESIGN §6)',
     'C11': 'in progress',
